@@ -1,6 +1,8 @@
 // C09 single-block AES-128 equals FIPS-197 for every key/block; decryption inverts it.
 #include "../harness.h"
 #include "../gen.h"
+#include <thread>
+#include <atomic>
 
 // off: address residue of the block buffer handed to the library (-1: derived from the pair; 3 of 4 pairs get
 // the 16-aligned address the pipeline uses, the others any residue)
@@ -124,6 +126,87 @@ static Verdict run_c09(const Case &c)
 {
   Verdict v;
   std::string kind = c.get("kind", "batch");
+  if (kind == "threads")
+  {
+    // several threads, each with its own key, cipher objects and blocks, use the cipher for the first time in
+    // the process at the same moment (the pipeline's workers do so on their first chunk). Run in a child that is
+    // forked before this process has touched AES; under ThreadSanitizer any unsynchronised shared state shows
+    // as a data race, without it as a wrong block when the timing allows.
+    int nthreads = (int)c.geti("n", 8);
+    uint64_t seed = (uint64_t)c.geti("seed");
+    ChildResult r = run_in_child([&]() {
+      {
+        // the reference builds its own tables on first use: do that here, on one thread (wencry's AES stays untouched)
+        uint8_t z[16] = {0}, o[16];
+        ref::Aes128 a(z);
+        a.enc(z, o);
+        a.dec(z, o);
+        (void)ref::sbox(1);
+        (void)ref::inv_sbox(1);
+        (void)ref::gf_mul(3, 7);
+      }
+      std::vector<std::string> msgs((size_t)nthreads);
+      std::vector<std::thread> ts;
+      std::atomic<int> ready{0};
+      for (int t = 0; t < nthreads; t++)
+        ts.emplace_back([&, t] {
+          Sm64 rr(seed * 1000 + (uint64_t)t);
+          ready++;
+          while (ready.load() < nthreads)
+          {
+          }
+          for (int i = 0; i < 4 && msgs[(size_t)t].empty(); i++)
+          {
+            uint8_t k[16], b[16];
+            for (int j = 0; j < 16; j += 8)
+            {
+              uint64_t x = rr.next(), y = rr.next();
+              memcpy(k + j, &x, 8);
+              memcpy(b + j, &y, 8);
+            }
+            msgs[(size_t)t] = check_pair(k, b, 0);
+          }
+        });
+      for (auto &t : ts)
+        t.join();
+      Ser s;
+      std::string all;
+      for (auto &m : msgs)
+        if (!m.empty() && all.empty())
+          all = m;
+      s.str(all);
+      return s.b;
+    });
+    v.nontrivial = true;
+    v.weight = (uint64_t)nthreads * 4;
+    v.distinct = 0x3000000ull + seed;
+    v.classes.push_back("first_use_from_several_threads_at_once");
+    if (r.status == CH_EXIT && r.code == 97)
+    {
+      std::string first;
+      size_t p1 = r.detail.find("WARNING:"), p2 = r.detail.find("\n\n", p1 == std::string::npos ? 0 : p1);
+      first = r.detail.substr(p1 == std::string::npos ? 0 : p1, 600);
+      (void)p2;
+      for (auto &ch : first)
+        if (ch == '\n')
+          ch = '|';
+      if (r.detail.find("/kernel/") == std::string::npos)
+      {
+        // no frame of the code under test in the report: a race inside the harness, not a verdict about wencry
+        Verdict f = Verdict::fail("harness: ThreadSanitizer report without a frame in wencry: " + first);
+        f.infra = true;
+        return f;
+      }
+      return Verdict::fail("ThreadSanitizer: threads that each use their own key, cipher object and block race on shared state of the cipher: " + first);
+    }
+    if (r.status != CH_OK)
+      return Verdict::fail("concurrent first use of the cipher did not end normally: " + r.describe());
+    De d(r.payload);
+    std::string m = d.str();
+    if (!m.empty())
+      return Verdict::fail(m + " [" + std::to_string(nthreads) + " threads using the cipher for the first time in the process at once]");
+    return v;
+  }
   if (kind == "state")
   {
     bytes k = c.getb("key");
@@ -332,6 +415,18 @@ static void fixed_c09(Ctx &ctx)
 {
   const Prop *p = find_prop("C09");
   uint64_t i = 0;
+  // before this process has used AES at all: concurrent first use (each case in a child forked from the still
+  // pristine process). With --mode threads (ThreadSanitizer build) nothing else is run.
+  for (int rep = 0; rep < (ctx.mode == "threads" ? 12 : 3); rep++)
+  {
+    Case c;
+    c.set("kind", "threads");
+    c.seti("n", rep % 2 ? 4 : 8);
+    c.seti("seed", (long long)(ctx.seed * 100 + (uint64_t)ctx.shard * 16 + (uint64_t)rep));
+    eval_fixed(*p, ctx, c);
+  }
+  if (ctx.mode == "threads")
+    return;
   // every structured zero pattern at every round and both points, for three keys
   for (int kk = 0; kk < 3; kk++)
     for (int point = 0; point < 2; point++)
